@@ -338,6 +338,67 @@ func bounded(fn *ssa.Function, v ssa.Value, k int64, upper bool, at *ssa.BasicBl
 			}
 		}
 	}
+	// what the type alone says: an unsigned value is >= 0, a byte is <= 255
+	if bt, ok := v.Type().Underlying().(*types.Basic); ok && bt.Info()&types.IsUnsigned != 0 {
+		if !upper && k <= 0 {
+			return true
+		}
+		if upper && ((bt.Kind() == types.Uint8 && k >= 255) || (bt.Kind() == types.Uint16 && k >= 65535)) {
+			return true
+		}
+	}
+	// a widening conversion of an unsigned value keeps value and order
+	if cv, ok := v.(*ssa.Convert); ok {
+		if st, ok := cv.X.Type().Underlying().(*types.Basic); ok && st.Info()&types.IsUnsigned != 0 && (st.Kind() == types.Uint8 || st.Kind() == types.Uint16 || st.Kind() == types.Uint32) {
+			if dt, ok := cv.Type().Underlying().(*types.Basic); ok && dt.Info()&types.IsInteger != 0 && (dt.Kind() == types.Int || dt.Kind() == types.Int64 || dt.Kind() == types.Uint || dt.Kind() == types.Uint64 || (dt.Kind() == types.Int32 && st.Kind() != types.Uint32) || (dt.Kind() == types.Uint32)) {
+				if bounded(fn, cv.X, k, upper, at, depth+1) {
+					return true
+				}
+			}
+		}
+	}
+	// len(…) and cap(…) are >= 0
+	if call, ok := v.(*ssa.Call); ok && !upper && k <= 0 {
+		if bi, ok := call.Call.Value.(*ssa.Builtin); ok && (bi.Name() == "len" || bi.Name() == "cap") {
+			return true
+		}
+	}
+	// x % c, x / c, x & c, x >> c with a positive constant c
+	if b, ok := v.(*ssa.BinOp); ok {
+		if cst, isC := eng.ConstInt(b.Y); isC && cst > 0 && cst < 1<<40 {
+			nonNeg := func() bool { return bounded(fn, b.X, 0, false, at, depth+1) }
+			switch b.Op {
+			case token.REM:
+				if upper && cst-1 <= k && (k >= cst-1) {
+					return true
+				}
+				if !upper && k <= 0 && nonNeg() {
+					return true
+				}
+			case token.QUO:
+				if upper && k >= 0 && k < 1<<20 && bounded(fn, b.X, (k+1)*cst-1, true, at, depth+1) {
+					return true
+				}
+				if !upper && k <= 0 && nonNeg() {
+					return true
+				}
+			case token.AND:
+				if upper && cst <= k {
+					return true
+				}
+				if !upper && k <= 0 {
+					return true
+				}
+			case token.SHR:
+				if cst < 40 && upper && k >= 0 && k < 1<<20 && bounded(fn, b.X, ((k+1)<<uint(cst))-1, true, at, depth+1) {
+					return true
+				}
+				if !upper && k <= 0 && nonNeg() {
+					return true
+				}
+			}
+		}
+	}
 	// x + c and x - c
 	if b, ok := v.(*ssa.BinOp); ok && (b.Op == token.ADD || b.Op == token.SUB) {
 		if cst, isC := eng.ConstInt(b.Y); isC && cst > -(1<<40) && cst < 1<<40 {
@@ -448,6 +509,12 @@ func bounded(fn *ssa.Function, v ssa.Value, k int64, upper bool, at *ssa.BasicBl
 			pred := ph.Block().Preds[i]
 			if e == ssa.Value(ph) {
 				continue
+			}
+			// a counter: the phi plus a positive constant never falls below its start (minus: never rises above it)
+			if b, ok := e.(*ssa.BinOp); ok && b.X == ssa.Value(ph) && (b.Op == token.ADD || b.Op == token.SUB) {
+				if step, isC := eng.ConstInt(b.Y); isC && step > 0 && (b.Op == token.ADD) == !upper {
+					continue
+				}
 			}
 			if cst, ok := eng.ConstInt(e); ok {
 				if (upper && cst <= k) || (!upper && cst >= k) {
